@@ -10,19 +10,26 @@ quantifier over schedules.
 ```
  pc        AcceptConnect (inbound)                         Connect (outbound)
  start     beforeHandshakeCheck: checkReservedPeers, hasBoundAddr, OwnAddress, isBoundFull, per-IP count
- checked   (sound: record the reservation, leave reserveMu)   + tryAddConnecting, then Dial
+ checked   record the reservation, leave reserveMu            + tryAddConnecting, then Dial
  handshak. HandshakeServer … afterHandshakeCheck, savePeer  HandshakeClient … afterHandshakeCheck, savePeer,
                                                               deferred removeConnecting
  saved     Conn.Close -> removePeer
- closed    —
+ closed    a further Close() of the stale Conn handle (if the connection had been established)
 ```
 
-* `Variant.asShipped` is the code as it is: the limits are checked in `start` and nothing is recorded until
-  `savePeer` — check-then-act.  (`connecting` only holds the *address* being dialled, it reserves no slot.)
-* `Variant.sound` is the controller repaired by `fixes/C36-reserve-slot.patch`: `beforeHandshakeCheck` runs under
-  `reserveMu` (field `lock`: other threads' checks block), counts established + pending slots, and records the
-  address in `pending` before it releases `reserveMu`; `savePeer` turns the pending slot into an established one in
-  the same critical section; every failure exit drops it (`releaseSlot`).
+The model mirrors the controller as it is in the tree (with the slot reservation of commit 280bc886, "reserve-slot"):
+`beforeHandshakeCheck` runs under `reserveMu` (field `lock`: other threads' checks block), counts established +
+pending slots, and records the address in `pending` before it releases `reserveMu`; `savePeer` turns the pending slot
+into an established one in the same critical section; every failure exit drops it (`releaseSlot`).  The controller
+before that commit (no reservation: check-then-act) lives on only as the explicitly historical step function
+`Model/ConnCtlHist.lean:stepHist`, for the refutation theorems.
+
+A thread that has been `saved` keeps its `Conn` handle (`cid ≠ 0`) after it is `closed`; stepping it again is a
+second `Close()` of that stale handle:
+* `Variant.asShipped` is the code as it is: `Conn.Close` calls `removePeer` on every call, and `removePeer` removes
+  `conn.addr` from the address set unconditionally (only the `peers` entry is guarded by `connectId`) — a stale close
+  after a reconnect from the same address drops the LIVE connection's record.
+* `Variant.sound` is `fixes/C36-stale-close.patch`: `removePeer` runs once per `Conn` (`sync.Once`).
 
 What a thread's remote side will do (handshake completes / fails / dial fails, which peer id and listen port it
 announces) is part of the thread's static data, so that a run is a function of the schedule alone.
@@ -92,12 +99,12 @@ structure State where
   threads : List Thread
   /-- `inoutbounds[INBOUND_INDEX]`, `inoutbounds[OUTBOUND_INDEX]` -/
   bound : Dir → List Addr := fun _ => []
-  /-- `pending[…]` of the repaired controller (never written by `.asShipped`) -/
+  /-- `pending[INBOUND_INDEX]`, `pending[OUTBOUND_INDEX]`: slots reserved by `beforeHandshakeCheck` -/
   pend : Dir → List Addr := fun _ => []
   /-- `inboundListenAddress` -/
   listen : List Addr := []
   connecting : List Addr := []
-  /-- holder of `reserveMu` (repaired controller only) -/
+  /-- holder of `reserveMu` -/
   lock : Option Nat := none
   /-- `ownListenAddr` -/
   own : Option Addr := none
@@ -113,26 +120,18 @@ inductive Rej | reserved | dup | self | full | ipfull | connecting | dial | hs |
 deriving DecidableEq, Repr
 
 /-- outcome of one step, for the driver -/
-inductive Res | idle | blocked | pass | chk | saved | closed (fatal : Bool) | rej (r : Rej)
+inductive Res | idle | blocked | pass | chk | saved | closed (fatal : Bool) | again (fatal : Bool) | rej (r : Rej)
 deriving DecidableEq, Repr
 
-/-- slots the limit check counts: established ones; the repaired controller adds the reserved ones -/
-def slots (v : Variant) (s : State) (d : Dir) : Nat :=
-  match v with
-  | .asShipped => (s.bound d).length
-  | .sound => (s.bound d).length + (s.pend d).length
+/-- slots the limit check counts (`boundsCount`): established + reserved -/
+def slots (s : State) (d : Dir) : Nat := (s.bound d).length + (s.pend d).length
 
-def ipSlots (v : Variant) (s : State) (ip : Nat) : Nat :=
-  match v with
-  | .asShipped => cnt ip (s.bound .inb)
-  | .sound => cnt ip (s.bound .inb) + cnt ip (s.pend .inb)
+/-- `getInboundCountWithIp` -/
+def ipSlots (s : State) (ip : Nat) : Nat := cnt ip (s.bound .inb) + cnt ip (s.pend .inb)
 
 /-- `hasBoundAddr` -/
-def hasAddr (v : Variant) (s : State) (a : Addr) : Bool :=
-  a ∈ s.bound .inb || a ∈ s.bound .outb || a ∈ s.listen ||
-    (match v with
-     | .asShipped => false
-     | .sound => a ∈ s.pend .inb || a ∈ s.pend .outb)
+def hasAddr (s : State) (a : Addr) : Bool :=
+  a ∈ s.bound .inb || a ∈ s.bound .outb || a ∈ s.listen || a ∈ s.pend .inb || a ∈ s.pend .outb
 
 /-- `checkReservedPeers` -/
 def rsvReject (c : Cfg) (t : Thread) : Bool :=
@@ -141,11 +140,11 @@ def rsvReject (c : Cfg) (t : Thread) : Bool :=
   | some l => !(l.contains t.ip)
 
 /-- the part of `beforeHandshakeCheck` after `checkReservedPeers`; `none` = passed -/
-def check (v : Variant) (s : State) (t : Thread) : Option Rej :=
-  if hasAddr v s t.addr then some .dup
+def check (s : State) (t : Thread) : Option Rej :=
+  if hasAddr s t.addr then some .dup
   else if s.own = some t.addr then some .self
-  else if slots v s t.dir ≥ s.cfg.max t.dir then some .full
-  else if t.dir = .inb ∧ ipSlots v s t.ip ≥ s.cfg.maxIp then some .ipfull
+  else if slots s t.dir ≥ s.cfg.max t.dir then some .full
+  else if t.dir = .inb ∧ ipSlots s t.ip ≥ s.cfg.maxIp then some .ipfull
   else none
 
 def setThread (s : State) (i : Nat) (t : Thread) : State := { s with threads := s.threads.set i t }
@@ -165,14 +164,23 @@ def peerIpMismatch (ps : List (Nat × Nat × Addr)) (t : Thread) : Bool :=
   | none => false
 
 /-- what every exit of `Connect` and every failure exit of `AcceptConnect` after a passed check undoes:
-the deferred `releaseSlot` (repaired controller) and the deferred `removeConnecting` (outbound) -/
-def release (v : Variant) (s : State) (d : Dir) (a : Addr) : State :=
-  let s := match v with
-    | .asShipped => s
-    | .sound => { s with pend := upd s.pend d (del a) }
+the deferred `releaseSlot` and (outbound) the deferred `removeConnecting` -/
+def release (s : State) (d : Dir) (a : Addr) : State :=
+  let s := { s with pend := upd s.pend d (del a) }
   match d with
   | .inb => s
   | .outb => { s with connecting := del a s.connecting }
+
+/-- `removePeer(conn)` for the `Conn` handle of thread `t`; the flag is the `logger.Fatalf` branch -/
+def removePeer (s : State) (t : Thread) : State × Bool :=
+  let s1 : State := { s with
+    bound := upd s.bound t.dir (del t.addr)
+    listen := if t.dir = .inb then del t.listenAddr s.listen else s.listen }
+  match peersGet s.peers t.pid with
+  | none => ({ s1 with fatal := s1.fatal + 1 }, true)
+  | some (cid, _) =>
+    if cid = t.cid then ({ s1 with peers := peersDel s1.peers t.pid }, false)   -- connection not replaced
+    else (s1, false)
 
 /-- one atomic action of thread `i` -/
 def stepR (v : Variant) (s : State) (i : Nat) : State × Res :=
@@ -184,59 +192,48 @@ def stepR (v : Variant) (s : State) (i : Nat) : State × Res :=
     match t.pc with
     | .start =>
       if rsvReject s.cfg t then (setPc s i t .closed, .rej .reserved)
-      else match v with
-        | .asShipped =>
-          match check v s t with
-          | some r => (setPc s i t .closed, .rej r)
-          | none => (setPc s i t .checked, .pass)
-        | .sound =>
-          if s.lock.isSome then (s, .blocked)            -- reserveMu is held by another check
-          else match check v s t with
-            | some r => (setPc s i t .closed, .rej r)     -- reserveMu taken and released within the step
-            | none => (setPc { s with lock := some i } i t .checked, .pass)
+      else if s.lock.isSome then (s, .blocked)            -- reserveMu is held by another check
+      else match check s t with
+        | some r => (setPc s i t .closed, .rej r)         -- reserveMu taken and released within the step
+        | none => (setPc { s with lock := some i } i t .checked, .pass)
     | .checked =>
-      let s1 := match v with
-        | .asShipped => s
-        | .sound => { s with pend := upd s.pend d (ins a), lock := none }
+      -- record the reservation, leave reserveMu
+      let s1 : State := { s with pend := upd s.pend d (ins a), lock := none }
       match d with
       | .inb => (setPc s1 i t .handshaking, .chk)
       | .outb =>
-        if a ∈ s1.connecting then                          -- tryAddConnecting fails
-          let s2 := match v with
-            | .asShipped => s1
-            | .sound => { s1 with pend := upd s1.pend d (del a) }
-          (setPc s2 i t .closed, .rej .connecting)
+        if a ∈ s1.connecting then                          -- tryAddConnecting fails; deferred releaseSlot
+          (setPc { s1 with pend := upd s1.pend d (del a) } i t .closed, .rej .connecting)
         else (setPc { s1 with connecting := ins a s1.connecting } i t .handshaking, .chk)
     | .handshaking =>
       match t.fate with
-      | .hsFail => (setPc (release v s d a) i t .closed, .rej .hs)
-      | .dialFail => (setPc (release v s d a) i t .closed, .rej (if d = .outb then .dial else .hs))
+      | .hsFail => (setPc (release s d a) i t .closed, .rej .hs)
+      | .dialFail => (setPc (release s d a) i t .closed, .rej (if d = .outb then .dial else .hs))
       | .ok =>
         -- afterHandshakeCheck: isHandWithSelf, checkPeerIdAndIP
         if t.pid = 0 then
-          (setPc (release v { s with own := some t.listenAddr } d a) i t .closed, .rej .hsself)
+          (setPc (release { s with own := some t.listenAddr } d a) i t .closed, .rej .hsself)
         else if peerIpMismatch s.peers t then
-          (setPc (release v s d a) i t .closed, .rej .peerip)
+          (setPc (release s d a) i t .closed, .rej .peerip)
         else
-          -- savePeer (one critical section); the repaired controller consumes the reservation in it
+          -- savePeer (one critical section) consumes the reservation
           let cid := s.nextCid + 1
           let s1 : State := { s with
             bound := upd s.bound d (ins a)
             listen := if d = .inb then ins t.listenAddr s.listen else s.listen
             nextCid := cid
             peers := peersSet s.peers t.pid (cid, a) }
-          (setThread (release v s1 d a) i { t with pc := .saved, cid := cid }, .saved)
+          (setThread (release s1 d a) i { t with pc := .saved, cid := cid }, .saved)
     | .saved =>
       -- Conn.Close -> removePeer
-      let s1 : State := { s with
-        bound := upd s.bound d (del a)
-        listen := if d = .inb then del t.listenAddr s.listen else s.listen }
-      match peersGet s.peers t.pid with
-      | none => (setPc { s1 with fatal := s1.fatal + 1 } i t .closed, .closed true)
-      | some (cid, _) =>
-        if cid = t.cid then (setPc { s1 with peers := peersDel s1.peers t.pid } i t .closed, .closed false)
-        else (setPc s1 i t .closed, .closed false)
-    | .closed => (s, .idle)
+      let r := removePeer s t
+      (setPc r.1 i t .closed, .closed r.2)
+    | .closed =>
+      -- a further Close() of the Conn handle of a connection that had been established
+      if t.cid = 0 then (s, .idle)
+      else match v with
+        | .asShipped => let r := removePeer s t; (r.1, .again r.2)
+        | .sound => (s, .again false)
 
 def step (v : Variant) (s : State) (i : Nat) : State := (stepR v s i).1
 
@@ -251,20 +248,16 @@ def established (s : State) (d : Dir) : Nat :=
 def establishedIp (s : State) (ip : Nat) : Nat :=
   (s.threads.filter (fun t => t.dir = .inb ∧ t.pc = .saved ∧ t.ip = ip)).length
 
-/-- connection attempts of direction `d` between their check and their `savePeer` / failure -/
-def inFlight (s : State) (d : Dir) : Nat :=
-  (s.threads.filter (fun t => t.dir = d ∧ (t.pc = .checked ∨ t.pc = .handshaking))).length
+/-- stepping thread `i` now would be a repeated `Close()` of a stale `Conn` handle -/
+def staleStep (s : State) (i : Nat) : Bool :=
+  match s.threads[i]? with
+  | some t => t.pc = .closed ∧ t.cid ≠ 0
+  | none => false
 
-def inFlightIp (s : State) (ip : Nat) : Nat :=
-  (s.threads.filter (fun t => t.dir = .inb ∧ t.ip = ip ∧ (t.pc = .checked ∨ t.pc = .handshaking))).length
-
-/-- no two attempts of one direction are between check and save at the same time -/
-def NoOverlap (s : State) : Prop := ∀ d, inFlight s d ≤ 1
-
-/-- `NoOverlap` holds after every step of the schedule (what a sequential test exercises) -/
-def NoOverlapRun (v : Variant) : State → List Nat → Prop
+/-- the schedule never closes a `Conn` twice -/
+def StaleFreeRun (v : Variant) : State → List Nat → Prop
   | _, [] => True
-  | s, i :: r => NoOverlap (step v s i) ∧ NoOverlapRun v (step v s i) r
+  | s, i :: r => staleStep s i = false ∧ StaleFreeRun v (step v s i) r
 
 /-- the three limits on the controller's own counters (`InboundsCount`, `getInboundCountWithIp`, `OutboundsCount`) -/
 def LimitsHold (s : State) : Prop :=
